@@ -79,7 +79,7 @@ PROPS = {
                      "ECDHE shared secret, received plaintext), raw and as hex with separators removed; non-trivial = the run executed library code "
                      "that handles secrets (every run does); distinct = distinct interleaving / fault / operation-sequence ids"),
     "C06": dict(level="exploration", design="4.5", memclass="only", cell_keys=["proto", "victim", "rec"],
-                parts=[("byz", "asan", 10, 32, []), ("mitm-hs", "asan", 3, 24, []), ("mitm-data", "asan", 2, 24, []), ("auth", "asan", 1, 12, [])],
+                parts=[("byz", "asan", 9, 32, []), ("mitm-hs", "asan", 3, 24, []), ("mitm-data", "asan", 2, 24, []), ("auth", "asan", 1, 12, []), ("http", "asan", 1, 200, [])],
                 quick_s=55, thorough_s=1200, quick_max=200000, thorough_max=4000000,
                 rule="scope: every byte stream a TLS/TLCP/TLS 1.3 client or server receives from its peer. One run = a real victim endpoint "
                      "and its real peer with the interposer acting as byzantine peer: 1..3 handshake records of one direction rewritten by seeded "
@@ -87,7 +87,7 @@ PROPS = {
                      "cipher list, EC point variants, certificate list re-framed with one certificate's DER tree mutated: lengths "
                      "0/+-1/huge/indefinite/non-minimal, duplicated/dropped/retagged TLVs, OIDs of 1..45 arcs, oversized lists of real certificates); "
                      "TLS 1.3 protected messages are unprotected with the sender's keys, rewritten and re-protected; plus the mitm-hs, mitm-data and "
-                     "auth scenarios. All under ASan + UBSan(bounds, pointer-overflow, null, object-size); oracle = no sanitizer report, no abort, no "
+                     "auth scenarios, and http_get against a simulated server returning generated responses (status/header/Content-Length variants, body shorter or longer than announced, early EOF, arbitrary segmentation, caller buffers of 0..70000 bytes with guard zones). All under ASan + UBSan(bounds, pointer-overflow, null, object-size); oracle = no sanitizer report, no abort, no "
                      "hang (CPU watchdog, runaway-output trip), TLS_CONNECT state integrity, lengths within capacity. non-trivial = a mutation/fault "
                      "really reached the victim; distinct = distinct (protocol, victim, record, mutation seed) ids"),
     "C20": dict(level="exploration", design="4.8",
